@@ -15,7 +15,8 @@ import (
 // Val is a value record of the specification.
 type Val struct {
 	K      string            `json:"k"`
-	V      json.RawMessage   `json:"v,omitempty"`
+	B      bool              `json:"b,omitempty"`
+	N      int               `json:"n,omitempty"`
 	Neg    bool              `json:"neg,omitempty"`
 	Mag    []int             `json:"mag,omitempty"`
 	Bits   []int             `json:"bits,omitempty"`
@@ -88,17 +89,9 @@ func (v *Val) Payload() []byte {
 	return ToBytes(v.Data)
 }
 
-func (v *Val) BoolV() bool {
-	var b bool
-	json.Unmarshal(v.V, &b)
-	return b
-}
+func (v *Val) BoolV() bool { return v.B }
 
-func (v *Val) ByteV() byte {
-	var n int
-	json.Unmarshal(v.V, &n)
-	return byte(n)
-}
+func (v *Val) ByteV() byte { return byte(v.N) }
 
 // Mag64 returns the 64-bit magnitude.
 func (v *Val) Mag64() uint64 {
